@@ -36,12 +36,14 @@ static _Bool nv_state_update_along(struct nv_state* s, const struct nv_state* s0
 {
   nv_ver_counter = nv_ver_counter + 1;
   s->ver = nv_ver_counter; s->eval_ver = s->ver; s->origin = s0->ver; s->t = t;
-  s->valid = nv_nondet__Bool(); s->m_fx = nv_nondet_double(); s->dg = nv_nondet_double();
+  s->valid = nv_nondet__Bool(); s->m_fx = nv_nondet_double(); s->dg = nv_nondet_double(); s->gtest = nv_nondet_double();
   s->m_fcalls = nv_nondet_int64_t(); s->m_gcalls = nv_nondet_int64_t();
   return s->valid;
 }
 
-#define NV_VERS(k) (state0->ver <= nv_ver_counter && state->ver <= nv_ver_counter && nv_ver_counter < UINT64_MAX - (k) + i)
+#define NV_VERS(k) (state0->ver <= nv_ver_counter && state->ver <= nv_ver_counter && nv_ver_counter < UINT64_MAX - (k) + i \
+  && state->eval_ver == state->ver && nv_ver_counter >= __CPROVER_loop_entry(nv_ver_counter) \
+  && nv_ver_counter - __CPROVER_loop_entry(nv_ver_counter) <= (uint64_t)i)
 #define NV_STATE_FRESH(p) __CPROVER_is_fresh(p, sizeof(struct nv_state))
 /* "state is the evaluation at x0 + t*d of state0" */
 #define NV_AT(s, s0, step) ((s)->origin == (s0)->ver && NV_SAME((s)->t, (step)) && (s)->eval_ver == (s)->ver && (s)->ver != (s0)->ver)
@@ -64,7 +66,10 @@ __CPROVER_requires(NV_AT(state, state0, step_size) && state->valid)
 #define NV_OK __CPROVER_return_value._0
 #define NV_T __CPROVER_return_value._1
 /* every line search: success => the state is the valid evaluation at x0 + t*d for the returned t */
-#define NV_DOGET_ENSURES_STATE __CPROVER_ensures(NV_OK ==> (NV_AT(state, state0, NV_T) && state->valid))
+#define NV_DOGET_ENSURES_STATE __CPROVER_ensures(NV_OK ==> (NV_AT(state, state0, NV_T) && state->valid)) \
+__CPROVER_ensures(nv_ver_counter >= __CPROVER_old(nv_ver_counter) && state->ver <= nv_ver_counter && state->eval_ver == state->ver) \
+/* evaluation budget of one line search: at most max_iterations trial evaluations per loop */ \
+__CPROVER_ensures(nv_ver_counter - __CPROVER_old(nv_ver_counter) <= 2 * (uint64_t)nv_max_iterations)
 
 /* backtracking: success => Armijo was evaluated to true on the current trial point with the returned step and c1 */
 #define NV_CONTRACT_backtrack_do_get NV_DOGET_REQUIRES NV_DOGET_ASSIGNS NV_DOGET_ENSURES_STATE \
@@ -89,8 +94,9 @@ __CPROVER_ensures(NV_OK ==> (NV_PRED_AT(nv_armijo, state, state0) && NV_SAME(nv_
 __CPROVER_ensures(NV_OK ==> (NV_PRED_AT(nv_swolfe, state, state0) && nv_swolfe.c == nv_c2))
 #define NV_CONTRACT_fletcher_zoom \
 __CPROVER_requires(NV_STATE_FRESH(state) && NV_STATE_FRESH(state0) && __CPROVER_is_fresh(descent, sizeof(*descent)) && __CPROVER_is_fresh(self, sizeof(*self))) \
-__CPROVER_requires(NV_PARAMS_OK && state0->ver <= nv_ver_counter && state->ver <= nv_ver_counter && nv_ver_counter < UINT64_MAX - 10000) \
-NV_DOGET_ASSIGNS NV_FLETCHER_ENSURES
+__CPROVER_requires(NV_PARAMS_OK && state0->ver <= nv_ver_counter && state->ver <= nv_ver_counter && nv_ver_counter < UINT64_MAX - 10000 && state->eval_ver == state->ver) \
+NV_DOGET_ASSIGNS NV_FLETCHER_ENSURES \
+__CPROVER_ensures(nv_ver_counter - __CPROVER_old(nv_ver_counter) <= (uint64_t)nv_max_iterations)
 #define NV_LOOP_fletcher_zoom_1 \
 __CPROVER_assigns(i, lo, hi, *state, nv_ver_counter, nv_armijo, nv_swolfe) \
 __CPROVER_loop_invariant(0 <= i && i <= max_iterations && NV_VERS(10000)) \
@@ -116,14 +122,19 @@ __CPROVER_requires(NV_STATE_FRESH(state) && __CPROVER_is_fresh(descent, sizeof(*
 __CPROVER_requires(NV_PARAMS_OK && state->ver <= nv_ver_counter && nv_ver_counter < UINT64_MAX - 100000 && state->eval_ver == state->ver) \
 __CPROVER_assigns(*state, nv_ver_counter, nv_armijo, nv_wolfe, nv_swolfe) \
 __CPROVER_ensures(!(__CPROVER_old(state->dg) < 0.0) ==> (!NV_OK && NV_STATE_UNCHANGED(state) && NV_SAME(NV_T, step_size))) \
-__CPROVER_ensures(NV_OK ==> (state->origin == __CPROVER_old(state->ver) && NV_SAME(state->t, NV_T) && state->eval_ver == state->ver && state->ver != __CPROVER_old(state->ver) && state->valid))
+__CPROVER_ensures(NV_OK ==> (state->origin == __CPROVER_old(state->ver) && NV_SAME(state->t, NV_T) && state->eval_ver == state->ver && state->ver != __CPROVER_old(state->ver) && state->valid)) \
+/* bookkeeping used by the solvers: the state always stays one consistent evaluation; the ghost counter counts evaluations */ \
+__CPROVER_ensures(state->eval_ver == state->ver && state->ver <= nv_ver_counter && nv_ver_counter >= __CPROVER_old(nv_ver_counter) && nv_ver_counter - __CPROVER_old(nv_ver_counter) <= 4 * (uint64_t)nv_max_iterations) \
+__CPROVER_ensures(NV_OK ==> nv_ver_counter > __CPROVER_old(nv_ver_counter))
 #define NV_LOOP_lsearchk_get_1 \
 __CPROVER_assigns(i, step_size, *state, nv_ver_counter) \
 __CPROVER_loop_invariant(0 <= i && i <= max_iterations && state0.ver <= nv_ver_counter && state->ver <= nv_ver_counter && nv_ver_counter < UINT64_MAX - 100000 + i) \
+__CPROVER_loop_invariant(state->eval_ver == state->ver && nv_ver_counter >= __CPROVER_loop_entry(nv_ver_counter) && nv_ver_counter - __CPROVER_loop_entry(nv_ver_counter) <= (uint64_t)i) \
 __CPROVER_loop_invariant(i > 0 ==> (state->origin == state0.ver && state->eval_ver == state->ver && state->ver != state0.ver && !state->valid)) \
 __CPROVER_decreases(max_iterations - i)
 #define NV_LOOP_lsearchk_get_2 \
 __CPROVER_assigns(i, step_size, *state, nv_ver_counter) \
 __CPROVER_loop_invariant(0 <= i && i <= max_iterations && state0.ver <= nv_ver_counter && state->ver <= nv_ver_counter && nv_ver_counter < UINT64_MAX - 50000 + i) \
+__CPROVER_loop_invariant(state->eval_ver == state->ver && nv_ver_counter >= __CPROVER_loop_entry(nv_ver_counter) && nv_ver_counter - __CPROVER_loop_entry(nv_ver_counter) <= (uint64_t)i) \
 __CPROVER_loop_invariant(NV_AT(state, &state0, step_size) && state->valid) \
 __CPROVER_decreases(max_iterations - i)
